@@ -174,6 +174,9 @@ type opData struct {
 // seedFor is the oracle seed the provider returns for a consumer's requests (distinct per consumer).
 func seedFor(who string) []byte {
 	s := sha256.Sum256([]byte("verif/c18/seed/" + who))
+	if who == "A" {
+		s[0] = 0 // a valid seed whose hex rendering starts with zeros
+	}
 	return s[:]
 }
 
